@@ -60,6 +60,10 @@ func Symbols() []string {
 			out = append(out, op+":"+v)
 		}
 	}
+	// writes of the three kinds the library knows (a response piece, a notification on an idle connection, a notification
+	// that becomes due inside a response and is flushed at its end): whatever they do about their own timeout, the READ
+	// deadline is not theirs
+	out = append(out, "M:write", "M:idle", "M:resp")
 	return out
 }
 
@@ -81,6 +85,24 @@ func Run(ops []string) string {
 		case "W":
 			conn.SetWriteDeadline(t)
 			mw = t
+		case "M":
+			switch v {
+			case "write":
+				conn.Write([]byte("HTTP/1.1 204 No Content\r\n\r\n"))
+			case "idle":
+				conn.WriteMessage([]byte("EVENT/1.0 200 OK\r\n\r\n"))
+			case "resp":
+				conn.BeginResponse()
+				conn.WriteMessage([]byte("EVENT/1.0 200 OK\r\n\r\n"))
+				conn.Write([]byte("HTTP/1.1 204 No Content\r\n\r\n"))
+				conn.EndResponse()
+			}
+			if !s.rd.Equal(mr) {
+				return fmt.Sprintf("after %s (step %d of %s) the socket's read deadline is %s; before the write it was %s: a write has left a read deadline behind (or taken one away)",
+					sym, i+1, strings.Join(ops, ", "), show(s.rd), show(mr))
+			}
+			mw = s.wd // (what a write does about its own timeout is not judged here)
+			continue
 		}
 		if !s.rd.Equal(mr) || !s.wd.Equal(mw) {
 			return fmt.Sprintf("after %s (call %d of %s) the socket's deadlines are read=%s write=%s; a direct caller of the socket would have left read=%s write=%s",
